@@ -8,8 +8,19 @@ Public API (nothing here imports primaite; every random choice comes from the `r
         "dmz" (firewall with internal LAN, DMZ and an external router + LAN).  size 1..3 scales host counts / tables.
         shadowing=True allows configured software whose type is also pre-installed system software (web-browser, dns-client,
         ntp-client, ...): that is what most shipped scenarios do, and it triggers finding F-22 (second instance).
+    gen_software_matrix(rng, size=1, agents=True) -> dict
+        one switched LAN (optionally behind a router / beside a firewall) whose hosts carry random subsets of EVERY configurable
+        service / application type (SOFTWARE_VOCABULARY) with non-default values for their documented options, the common options
+        (fixing_duration, listen_on_ports, starting_health_state), and a declared operating_state drawn from absent / ON / OFF /
+        BOOTING / SHUTTING_DOWN for hosts, switches, routers and firewalls alike (at least one host OFF, one ON).
     permute_mappings(cfg, rng) -> dict      same scenario, the key order of EVERY mapping shuffled (lists untouched)
     reserialise(cfg, rng) -> dict           same scenario through a YAML dump in another style (flow/block, widths, sorted keys) and reload
+    format_variants(cfg, rng, which=None) -> [(name, dict)]
+        formatting-only re-writings of the same file, each produced as YAML TEXT and parsed back with yaml.safe_load (what
+        PrimAITE itself uses): "aliases" (equal sub-mappings written once with an anchor and referred to by alias: the parsed
+        document SHARES those objects), "merge-keys" (`<<: *common` for the keys hosts have in common), "comments" (full-line
+        comments sprinkled over a block-style dump), "quoted-ints" (integers the loaders coerce - ACL positions, action-map
+        keys, num_ports, durations, bandwidths, route metrics, NIC keys - written as quoted strings).
     summary(cfg) -> dict                    counts (nodes by type, links, acl rules, routes, software, users, files, agents)
     hosts_of(cfg) / routers_of(cfg) ...     small accessors used by callers that need vocabularies
 
@@ -414,6 +425,159 @@ def _build_network(rng, family: str, size: int, shadowing: bool, off_nodes: bool
     return net
 
 
+# ------------------------------------------------------------------------------------------------ software matrix
+POWER_STATES = [None, "ON", "OFF", "BOOTING", "SHUTTING_DOWN"]
+HEALTH_VALUES = [0, 1, 2, 3, 4]  # SoftwareHealthState by value: UNUSED, GOOD, FIXING, COMPROMISED, OVERWHELMED
+
+
+def _mx_ip(rng, env):
+    return f"{env['prefix']}.{rng.range(2, 250)}"
+
+
+def _mx_pw(rng, env):
+    return rng.choice(["s3cret", "pw-1", "P@ss", "letmein"])
+
+
+# type -> (services|applications, {documented option: generator of a NON-default value}); written from
+# docs/source/simulation_components/system/{services,applications}/*.rst (db_password: the docs call it `password`, the schema
+# `db_password`; masquerade_* of the C2 suite as the schema spells them)
+SOFTWARE_VOCABULARY = {
+    "dns-server": ("services", {"domain_mapping": lambda r, e: {d: _mx_ip(r, e) for d in r.shuffle(
+        ["arcd.com", "intranet.corp", "wiki.corp", "shop.example"])[: r.range(1, 3)]}}),
+    "dns-client": ("services", {"dns_server": _mx_ip}),
+    "database-service": ("services", {"backup_server_ip": _mx_ip, "db_password": _mx_pw}),
+    "ftp-server": ("services", {"server_password": _mx_pw}),
+    "ftp-client": ("services", {}),
+    "ntp-server": ("services", {}),
+    "ntp-client": ("services", {"ntp_server_ip": _mx_ip}),
+    "web-server": ("services", {}),
+    "terminal": ("services", {}),
+    "web-browser": ("applications", {"target_url": lambda r, e: r.choice(["http://arcd.com/", "intranet.corp", "http://wiki.corp/x"])}),
+    "database-client": ("applications", {"db_server_ip": _mx_ip, "server_password": _mx_pw}),
+    "data-manipulation-bot": ("applications", {"server_ip": _mx_ip, "server_password": _mx_pw,
+                                               "payload": lambda r, e: r.choice(["DROP TABLE users", "SELECT 1", "INSERT"]),
+                                               "port_scan_p_of_success": lambda r, e: r.choice([0.25, 0.5, 1.0]),
+                                               "data_manipulation_p_of_success": lambda r, e: r.choice([0.25, 0.75, 1.0]),
+                                               "repeat": lambda r, e: False}),
+    "dos-bot": ("applications", {"target_ip_address": _mx_ip, "target_port": lambda r, e: r.choice([80, 21, 53]),
+                                 "payload": lambda r, e: r.choice(["SPAM", "x"]), "repeat": lambda r, e: True,
+                                 "port_scan_p_of_success": lambda r, e: r.choice([0.25, 0.5, 1.0]),
+                                 "dos_intensity": lambda r, e: r.choice([0.25, 0.5]), "max_sessions": lambda r, e: r.choice([7, 50, 999])}),
+    "ransomware-script": ("applications", {"server_ip": _mx_ip, "server_password": _mx_pw, "payload": lambda r, e: "ENCRYPT2"}),
+    "c2-beacon": ("applications", {"c2_server_ip_address": _mx_ip, "keep_alive_frequency": lambda r, e: r.choice([2, 3, 9]),
+                                   "masquerade_protocol": lambda r, e: "udp", "masquerade_port": lambda r, e: r.choice([53, 21])}),
+    "c2-server": ("applications", {"keep_alive_frequency": lambda r, e: r.choice([2, 3, 9]), "masquerade_protocol": lambda r, e: "udp",
+                                   "masquerade_port": lambda r, e: r.choice([53, 21])}),
+    "nmap": ("applications", {}),
+}
+
+
+def _matrix_software(rng, host: dict, env: dict, must: Optional[List[str]] = None):
+    names = list(SOFTWARE_VOCABULARY)
+    chosen = list(must or []) + [t for t in rng.shuffle(names) if t not in (must or [])][: rng.range(2, 6)]
+    services: List[dict] = []
+    apps: List[dict] = []
+    for t in chosen:
+        sect, optgen = SOFTWARE_VOCABULARY[t]
+        opts: Dict[str, Any] = {}
+        for k, g in optgen.items():
+            if rng.chance(3, 4) or (t == "database-service" and k == "backup_server_ip"):
+                opts[k] = g(rng, env)
+        if rng.chance(1, 3):
+            opts["fixing_duration"] = rng.choice([1, 3, 5, 9])
+        if rng.chance(1, 4):
+            opts["listen_on_ports"] = rng.shuffle([80, 443, 53, 21, 8080, "SMB", "SSH"])[: rng.range(1, 3)]
+        if rng.chance(1, 4):
+            opts["starting_health_state"] = rng.choice(HEALTH_VALUES)
+        e: Dict[str, Any] = {"type": t}
+        if opts or rng.chance(1, 3):
+            e["options"] = opts
+        (services if sect == "services" else apps).append(e)
+    if services:
+        host["services"] = rng.shuffle(services)
+    if apps:
+        host["applications"] = rng.shuffle(apps)
+
+
+def gen_software_matrix(rng, size: int = 1, agents: bool = True) -> dict:
+    """See the module docstring. Every scenario loads; with agents it also steps."""
+    size = max(1, min(3, int(size)))
+    env = {"prefix": f"192.168.{rng.range(20, 40)}", "domain": "arcd.com"}
+    gateway = f"{env['prefix']}.1"
+    n_hosts = 2 + size + rng.below(2)
+    states = ["OFF", rng.choice([None, "ON"])] + [rng.choice(POWER_STATES + ["OFF"]) for _ in range(n_hosts - 2)]
+    states = rng.shuffle(states)
+    musts = rng.shuffle(list(SOFTWARE_VOCABULARY))  # spread: every type appears on some host as scenarios accumulate
+    hosts: List[dict] = []
+    for i in range(n_hosts):
+        h: Dict[str, Any] = {"hostname": f"host_{i + 1}", "type": rng.choice(["computer", "server", "computer", "server", "printer"]),
+                             "ip_address": f"{env['prefix']}.{10 + i}", "subnet_mask": "255.255.255.0", "default_gateway": gateway}
+        if states[i] is not None:
+            h["operating_state"] = states[i]
+        if rng.chance(1, 3):
+            h["start_up_duration"] = rng.choice([0, 1, 4])
+        if rng.chance(1, 3):
+            h["shut_down_duration"] = rng.choice([0, 2, 5])
+        if rng.chance(1, 4):
+            h["users"] = _user_list(rng, rng.range(1, 2))
+        if rng.chance(1, 4):
+            h["folders"] = _folders(rng, rng.range(1, 2))
+        _matrix_software(rng, h, env, must=musts[2 * i: 2 * i + 2])
+        hosts.append(h)
+    nodes: List[dict] = []
+    links: List[dict] = []
+    sw: Dict[str, Any] = {"hostname": "switch_m", "type": "switch", "num_ports": max(8, n_hosts + 3)}
+    if rng.chance(1, 4):
+        sw["operating_state"] = rng.choice(["OFF", "ON"])
+    nodes.append(sw)
+    port = 1
+    for h in hosts:
+        if rng.chance(7, 8):  # now and then a host stays unwired
+            links.append({"endpoint_a_hostname": "switch_m", "endpoint_a_port": port, "endpoint_b_hostname": h["hostname"],
+                          "endpoint_b_port": 1})
+            port += 1
+    if rng.chance(2, 3):
+        r: Dict[str, Any] = {"hostname": "router_m", "type": "router", "num_ports": rng.choice([2, 5]),
+                             "ports": {1: {"ip_address": gateway, "subnet_mask": "255.255.255.0"}},
+                             "acl": _acl(rng, [h["ip_address"] for h in hosts], rng.range(0, 3))}
+        st = rng.choice(POWER_STATES)
+        if st is not None:
+            r["operating_state"] = st
+        nodes.append(r)
+        links.append({"endpoint_a_hostname": "router_m", "endpoint_a_port": 1, "endpoint_b_hostname": "switch_m", "endpoint_b_port": port})
+        port += 1
+    if rng.chance(1, 3):
+        fw: Dict[str, Any] = {"hostname": "firewall_m", "type": "firewall",
+                              "ports": {"external_port": {"ip_address": "10.0.7.1", "subnet_mask": "255.255.255.252"},
+                                        "internal_port": {"ip_address": f"{env['prefix']}.254", "subnet_mask": "255.255.255.0"}}}
+        st = rng.choice(POWER_STATES)
+        if st is not None:
+            fw["operating_state"] = st
+        nodes.append(fw)
+        links.append({"endpoint_a_hostname": "firewall_m", "endpoint_a_port": 2, "endpoint_b_hostname": "switch_m", "endpoint_b_port": port})
+        port += 1
+    nodes.extend(hosts)
+    for l in links:
+        if rng.chance(1, 2):
+            l["bandwidth"] = rng.choice([100, 10, 1000])
+    cfg: Dict[str, Any] = {
+        "metadata": {"version": 3.0, "generated_family": "software-matrix", "generated_size": size},
+        "io_settings": dict(QUIET_IO),
+        "game": {"max_episode_length": rng.choice([16, 32]), "ports": ["HTTP", "POSTGRES_SERVER", "DNS", "FTP", "NTP"],
+                 "protocols": ["ICMP", "TCP", "UDP"], "thresholds": {"nmne": {"high": 10, "medium": 5, "low": 0}}},
+        "simulation": {"network": {"nodes": rng.shuffle(nodes), "links": rng.shuffle(links)}},
+    }
+    ag: List[dict] = []
+    if agents:
+        ag = [_defender(rng, cfg, size)]
+    cfg["agents"] = ag
+    wants_nmne = any(c.get("options", {}).get("include_nmne") for a in ag for c in
+                     (a.get("observation_space", {}).get("options", {}).get("components", [])))
+    if wants_nmne:
+        cfg["simulation"]["network"]["nmne_config"] = {"capture_nmne": True, "nmne_capture_keywords": ["DELETE"]}
+    return copy.deepcopy(cfg)
+
+
 # ------------------------------------------------------------------------------------------------ agents
 def hosts_of(cfg: dict) -> List[dict]:
     return [n for n in cfg["simulation"]["network"]["nodes"] if n["type"] in ("computer", "server")]
@@ -604,6 +768,102 @@ def reserialise(cfg: dict, rng) -> dict:
     else:
         text = yaml.safe_dump(cfg, default_flow_style=False, sort_keys=False, indent=4, default_style='"')
     return yaml.safe_load(text)
+
+
+def _intern(o: Any, pool: Dict[str, Any]) -> Any:
+    """Deep copy in which equal mappings / lists (of some size) are ONE object, so that the YAML dumper writes anchors/aliases."""
+    if isinstance(o, dict):
+        d = {k: _intern(v, pool) for k, v in o.items()}
+        if len(d) >= 2:
+            key = "D" + yaml.safe_dump(d, sort_keys=True)
+            return pool.setdefault(key, d)
+        return d
+    if isinstance(o, list):
+        l = [_intern(v, pool) for v in o]
+        if len(l) >= 2:
+            key = "L" + yaml.safe_dump(l, sort_keys=True)
+            return pool.setdefault(key, l)
+        return l
+    return o
+
+
+def _quote_ints(cfg: dict) -> dict:
+    c = copy.deepcopy(cfg)
+    net = c.get("simulation", {}).get("network", {})
+    for n in net.get("nodes", []):
+        for k in ("num_ports", "start_up_duration", "shut_down_duration"):
+            if isinstance(n.get(k), int):
+                n[k] = str(n[k])
+        if isinstance(n.get("network_interfaces"), dict):
+            n["network_interfaces"] = {str(k): v for k, v in n["network_interfaces"].items()}
+        acl = n.get("acl")
+        if isinstance(acl, dict):
+            if n["type"] == "firewall":
+                n["acl"] = {nm: ({str(k): v for k, v in a.items()} if isinstance(a, dict) else a) for nm, a in acl.items()}
+            else:
+                n["acl"] = {str(k): v for k, v in acl.items()}
+        for r in n.get("routes") or []:
+            if isinstance(r.get("metric"), int):
+                r["metric"] = str(r["metric"])
+        for e in (n.get("services") or []) + (n.get("applications") or []):
+            o = e.get("options") or {}
+            for k in ("fixing_duration", "max_sessions", "keep_alive_frequency"):  # not target_port: a string there is a port NAME
+                if isinstance(o.get(k), int) and not isinstance(o.get(k), bool):
+                    o[k] = str(o[k])
+    for l in net.get("links", []):
+        if isinstance(l.get("bandwidth"), int):
+            l["bandwidth"] = str(l["bandwidth"])
+    for a in c.get("agents", []):
+        am = (a.get("action_space") or {}).get("action_map")
+        if isinstance(am, dict):
+            a["action_space"]["action_map"] = {str(k): v for k, v in am.items()}
+    return c
+
+
+def format_variants(cfg: dict, rng, which: Optional[List[str]] = None) -> List[tuple]:
+    out = []
+    names = which or ["aliases", "merge-keys", "comments", "quoted-ints"]
+    for name in names:
+        if name == "aliases":
+            text = yaml.safe_dump(_intern(cfg, {}), default_flow_style=False, sort_keys=False)
+            out.append((name, yaml.safe_load(text)))
+        elif name == "merge-keys":
+            c = copy.deepcopy(cfg)
+            hosts = [n for n in c["simulation"]["network"]["nodes"] if n["type"] in ("computer", "server")]
+            common: Dict[str, Any] = {}
+            for k in ("subnet_mask", "default_gateway", "dns_server", "start_up_duration", "shut_down_duration"):
+                vals = [h[k] for h in hosts if k in h]
+                if vals:
+                    v = max(set(map(str, vals)), key=lambda x: sum(1 for y in vals if str(y) == x))
+                    common[k] = next(y for y in vals if str(y) == v)
+            if not common:
+                continue
+            for h in hosts:
+                # `<<` gives a key only where the host does not spell it out itself: every host keeps its own value set
+                if all(k in h and h[k] == v for k, v in common.items()):
+                    for k in common:
+                        del h[k]
+                    h["<<"] = "__MERGE_COMMON__"
+            meta = dict(c.pop("metadata", {}) or {})
+            body = yaml.safe_dump(c, default_flow_style=False, sort_keys=False)
+            body = body.replace("'<<': __MERGE_COMMON__", "<<: *common_host").replace('"<<": __MERGE_COMMON__', "<<: *common_host")
+            head = "metadata:\n" + "".join(f"  {k}: {yaml.safe_dump(v, default_flow_style=True).strip().splitlines()[0]}\n"
+                                            for k, v in meta.items()) + "  common_host: &common_host\n" + \
+                   "".join(f"    {k}: {yaml.safe_dump(v, default_flow_style=True).strip().splitlines()[0]}\n" for k, v in common.items())
+            parsed = yaml.safe_load(head + body)
+            out.append((name, parsed))
+        elif name == "comments":
+            text = yaml.safe_dump(cfg, default_flow_style=False, sort_keys=False, width=10 ** 6)
+            lines = []
+            for ln in text.splitlines():
+                if rng.chance(1, 5):
+                    lines.append(" " * rng.below(8) + "# " + rng.choice(["note", "TODO: check", "key: value", "- item", "{not: yaml}"]))
+                lines.append(ln)
+            out.append((name, yaml.safe_load("\n".join(lines) + "\n")))
+        elif name == "quoted-ints":
+            text = yaml.safe_dump(_quote_ints(cfg), default_flow_style=False, sort_keys=False)
+            out.append((name, yaml.safe_load(text)))
+    return out
 
 
 def summary(cfg: dict) -> dict:
